@@ -48,6 +48,10 @@ def rule_once(ctx, rep):
                 arms = si["edges"].get(succ)
                 if arms:
                     dec = dec | frozenset([(lab, arms[0])])
+            elif (si["subject"][1].callee or "").endswith(("Iterator>::last", "Iterator::last", "Vec::pop", "DoubleEndedIterator>::next_back", "DoubleEndedIterator::next_back")):
+                arms = si["edges"].get(succ)
+                if arms:
+                    dec = dec | frozenset([("last-change", arms[0])])
         return (dec, cnt, seq)
 
     rets = explore(b, (frozenset(), 0, ()), step, edge)
@@ -58,12 +62,18 @@ def rule_once(ctx, rep):
     seen_arms = set()
     for dec, cnt, seq in sorted(finals, key=lambda x: (sorted(x[0]), x[1], x[2])):
         oks = sorted(l for l, a in dec if a == "Ok")
+        no_change_event = ("last-change", "None") in dec
         name = "Ok:" + "+".join(oks) if oks else "fallthrough"
+        if no_change_event:
+            name += "(empty contentChanges)"
         inst = "handle_notification|%s|publishes=%d|%s" % (name, cnt, ">".join(seq))
         if oks in (["DidOpenTextDocument"], ["DidChangeTextDocument"]):
             seen_arms.add(oks[0])
             if cnt != 1:
                 r.finding(inst, where, "%d publishDiagnostics on this arm (exactly one required)" % cnt)
+            elif oks == ["DidChangeTextDocument"] and no_change_event and seq[-2:] == ("semantic", "publish") and "change" not in seq:
+                # a didChange without any change event: nothing to apply, the current contents are analysed and published
+                r.ok(inst, where)
             elif seq[-3:] != ("change", "semantic", "publish"):
                 r.finding(inst, where, "publish is not preceded by change_text_document then semantic (order: %s)" % (seq,))
             else:
